@@ -159,3 +159,21 @@ example : joinDot (a "{}") (a "[1]") = a "e30.WzFd" := by decide
 example : splitDot (a "e30.WzFd") = (a "e30", a "WzFd") := by decide
 
 end Base64
+
+namespace Base64
+
+/-- a line break inserted anywhere in a text does not change what the decoder reads (stored strings that
+were wrapped stay readable; the tie is the `mbdec` / `dlgparse` cases with inserted `\r` / `\n`) -/
+theorem decodeWith_insert_break (val : UInt8 → Option Nat) (pad : Bool) (s t : Bytes) (c : UInt8)
+    (h : isBreak c = true) : decodeWith val pad (s ++ c :: t) = decodeWith val pad (s ++ t) := by
+  simp [decodeWith, List.filter_append, h]
+
+theorem parseKey_insert_break (p : UInt8) (s t : Bytes) (c : UInt8) (h : isBreak c = true) :
+    parseKey (p :: (s ++ c :: t)) = parseKey (p :: (s ++ t)) := by
+  simp only [parseKey, mbDecode, rawStdDecode, stdDecode, rawUrlDecode, urlDecode,
+    decodeWith_insert_break _ _ s t c h]
+
+example : parseKey (formatKey [1, 2, 3, 4]) = .ok [1, 2, 3, 4] := C18_key_format_parse _
+example : parseKey (a "MAQI\nDBA==") = .ok [1, 2, 3, 4] := by decide
+
+end Base64
